@@ -567,3 +567,171 @@ def run_outer(ctx) -> RuleResult:
         raise AnalysisError("outer: no return path")
     result.floor = 4
     return result
+
+
+NONE_SENSITIVE = {"shape", "newshape", "axis", "axes", "dimensions", "start", "stop", "repeats", "reps", "offset",
+                  "k", "n", "decimals", "indices_or_sections", "axis1", "axis2", "source", "destination", "to_end",
+                  "to_begin", "prepend", "append", "fill_value", "cross_truncation"}
+
+
+def run_none(ctx) -> RuleResult:
+    result = RuleResult(
+        "R-NONE",
+        "parameters for which 0 / () / [] are legitimate values (shape, axis, dimensions, offsets, ...) are "
+        "tested with 'is None', never by truthiness ('x or default', 'if not x', 'x if x else ...')",
+    )
+    n = 0
+    for module, qual, func in ctx.repo.all_functions():
+        if module.is_pyx:
+            continue
+        args = func.args
+        defaults = {}
+        pos = args.posonlyargs + args.args
+        for arg, default in zip(pos[len(pos) - len(args.defaults):], args.defaults):
+            defaults[arg.arg] = default
+        for arg, default in zip(args.kwonlyargs, args.kw_defaults):
+            if default is not None:
+                defaults[arg.arg] = default
+        watch = {name for name, default in defaults.items()
+                 if name in NONE_SENSITIVE and isinstance(default, ast.Constant) and default.value is None}
+        if not watch:
+            continue
+        flagged = set()
+
+        def raw_param(step, name_node):
+            value = step.vars.get(name_node.id)
+            return is_param(value, name_node.id)
+
+        for path in ctx.paths_auto(module, func):
+            for step in path:
+                tests = []
+                if step.kind == "assume":
+                    node = step.node
+                    while isinstance(node, ast.UnaryOp) and isinstance(node.op, ast.Not):
+                        node = node.operand
+                    parts = node.values if isinstance(node, ast.BoolOp) else [node]
+                    for part in parts:
+                        while isinstance(part, ast.UnaryOp) and isinstance(part.op, ast.Not):
+                            part = part.operand
+                        tests.append(part)
+                for raw in step_exprs(step):
+                    for sub in ast.walk(raw):
+                        if isinstance(sub, ast.BoolOp) and step.kind != "assume":
+                            tests.extend(sub.values[:-1] if isinstance(sub.op, ast.Or) else sub.values)
+                for test in tests:
+                    if isinstance(test, ast.Name) and test.id in watch and raw_param(step, test):
+                        key = (test.id, getattr(step.orig, "lineno", 0))
+                        if key in flagged:
+                            continue
+                        flagged.add(key)
+                        n += 1
+                        result.add(Finding(
+                            "R-NONE", module, qual, step.node,
+                            f"parameter '{test.id}' (default None) is tested by truthiness: an explicit {test.id}=0 / () / [] "
+                            f"is treated like an omitted argument", derivation=describe_path(path)))
+        for name in sorted(watch):
+            result.ob(f"{module.name}.{qual}: '{name}' never tested by truthiness", not any(
+                f.function == qual and f.relpath == module.relpath and f"'{name}'" in f.message for f in result.findings),
+                module.loc(func), "")
+    result.floor = 10
+    return result
+
+
+def run_calltail(ctx) -> RuleResult:
+    result = RuleResult(
+        "R-CALLTAIL",
+        "call(): a non-constant result is re-aligned with the evaluated polynomial's indeterminates by "
+        "align_indeterminants (merging name sets), a constant one collapses through tonumpy",
+    )
+    modname = "numpoly.poly_function.call"
+    module = ctx.repo.module(modname)
+    func = ctx.repo.function(modname, "call")
+    n = 0
+    seen = set()
+    for path in ctx.paths(module, func, max_iter=1):
+        last = path[-1]
+        if last.kind != "return" or last.node.value is None:
+            continue
+        facts = {(_txt(node), pol) for node, pol in last.fact_items()}
+        is_poly = any(t.startswith("isinstance(") and "ndpoly" in t and pol is True and "term" not in t.split(",")[0] for t, pol in facts)
+        constant = None
+        for t, pol in facts:
+            if t.endswith(".isconstant()"):
+                constant = pol
+        if constant is None:
+            continue
+        value = last.expand(last.node.value)
+        text = _txt(value)
+        key = (constant, text[:60])
+        if key in seen:
+            continue
+        seen.add(key)
+        n += 1
+        if constant:
+            ok = text.endswith(".tonumpy()")
+            result.ob("call: constant result collapses to an ndarray", ok, module.loc(last.orig), text[-40:])
+            if not ok:
+                result.add(Finding("R-CALLTAIL", module, "call", last.node,
+                                   "a constant polynomial result is not converted with tonumpy()", construct="call: constant tail"))
+        else:
+            ok = False
+            if isinstance(value, ast.Subscript) and isinstance(value.value, ast.Call) and isinstance(value.slice, ast.Constant) \
+                    and value.slice.value == 0:
+                call = value.value
+                name = ctx.dotted(module, call.func) or ""
+                ok = name.endswith("align_indeterminants") and len(call.args) == 2 and ".indeterminants" in _txt(call.args[1])
+            result.ob("call: non-constant result is re-aligned by align_indeterminants(out, poly.indeterminants)[0]", ok,
+                      module.loc(last.orig), text[:80])
+            if not ok:
+                result.add(Finding(
+                    "R-CALLTAIL", module, "call", last.node,
+                    f"the substituted polynomial is returned as {text[:80]}: without align_indeterminants the exponent "
+                    f"columns are re-labelled by position instead of merging the name sets (wrong variables after a "
+                    f"partial evaluation under retain_names=False)", construct="call: non-constant tail"))
+    if n < 2:
+        raise AnalysisError("call: result tail not recognised")
+    result.floor = 2
+    return result
+
+
+def run_bindex(ctx) -> RuleResult:
+    result = RuleResult(
+        "R-BINDEX",
+        "bindex: the inverted ('I') ordering reverses the sequence of exponent tuples only (rows), never "
+        "the components inside a tuple",
+    )
+    modname = "numpoly.utils.bindex"
+    module = ctx.repo.module(modname)
+    func = ctx.repo.function(modname, "bindex")
+    n = 0
+    for path in ctx.paths(module, func):
+        last = path[-1]
+        if last.kind != "return" or last.node.value is None:
+            continue
+        value = last.expand(last.node.value)
+        text = _txt(value)
+        n += 1
+        bad = None
+        for call in calls_in(value):
+            name = ctx.dotted(module, call.func) or ""
+            if name in ("numpy.flip",):
+                axis = kwarg(call, "axis") or (call.args[1] if len(call.args) > 1 else None)
+                if not (isinstance(axis, ast.Constant) and axis.value == 0):
+                    bad = f"numpy.flip without axis=0 ({U(call)[:50]}) also reverses the components of every tuple"
+            if name in ("numpy.fliplr",):
+                bad = "numpy.fliplr reverses the components"
+        for node in walk_shared(value):
+            if isinstance(node, ast.Subscript) and isinstance(node.slice, ast.Tuple):
+                for elt in node.slice.elts[1:]:
+                    if isinstance(elt, ast.Slice) and isinstance(elt.step, ast.UnaryOp):
+                        bad = "the component axis is reversed as well"
+        result.ob("bindex returns the glexindex rows, possibly reversed as a whole", bad is None, module.loc(last.orig), text[:80])
+        if bad:
+            result.add(Finding("R-BINDEX", module, "bindex", last.node, bad))
+        ok = "glexindex(" in text
+        if not ok:
+            raise AnalysisError("bindex no longer returns glexindex output")
+    if n == 0:
+        raise AnalysisError("bindex: no return")
+    result.floor = 1
+    return result
